@@ -94,7 +94,7 @@ def oracle(case: Case, out: str):
         served_input = any(iv == v and (itok == tok or c.vars[v].unit == "eternity") for (iv, itok) in inputs)
         if served_input:
             continue
-        c2 = rs.SysCase(c.nP, c.nG, c.mem, c.msl, c.vars, [(w, t, x) for (w, t, x) in kv if (w, t) != (v, tok)], [])
+        c2 = rs.derive(c, inputs=[(w, t, x) for (w, t, x) in kv if (w, t) != (v, tok)], reqs=[])
         fresh = rs.build_simulation(c2, tbs, E5)
         try:
             # an eternal variable is requested at a dated period (at ETERNITY itself get_formula has no instant)
@@ -133,7 +133,7 @@ def generate(rng: random.Random, tier: str):
         out.append(_case(c, (f"kind={kind}", f"msl={msl}")))
         # a permutation of the same requests on the same system
         if len(c.reqs) > 1 and rng.random() < 0.5:
-            c2 = rs.SysCase(c.nP, c.nG, c.mem, c.msl, c.vars, c.inputs, rng.sample(c.reqs, len(c.reqs)))
+            c2 = rs.derive(c, reqs=rng.sample(c.reqs, len(c.reqs)))
             out.append(_case(c2, (f"kind={kind}", f"msl={msl}", "permuted")))
     return out
 
